@@ -11,7 +11,7 @@ Definition indR (b : bool) : R := if b then 1 else 0.
 (* the clever covariates are A/g1 and -(1-A)/g0 *)
 Lemma clever_covariates a g1 g0 :
   tmle_H1W_R a g1 = indR a / g1 /\ tmle_H0W_R a g0 = - (1 - indR a) / g0.
-Proof. unfold tmle_H1W_R, tmle_H0W_R, indR. destruct a; split; reflexivity. Qed.
+Proof. unfold tmle_H1W_R, tmle_H0W_R, indR. destruct a; split; unfold Rdiv; ring. Qed.
 
 (* the hand-computed Qstar1/Qstar0 and the prediction of the fluctuation model (offset logit Q_A plus
    epsilon . (H1W, H0W)) are the same function on the rows of the respective arm: a flipped sign or a swapped
